@@ -12,6 +12,22 @@ CLAIMED = {
             "empty matrices fail/panic before any access; proved for any pointer width, model validated on windows of several periods and all extreme pairs.",
             TB, "DESIGN §7 C13"),
 }
+CLAIMED.update({
+    'C05': ("Rocq proof of cycle-following transpose on the list model + differential correspondence",
+            "transpose of the executable model (the cycle-following loop with visited bitmap and fuel, statement for statement) is proved to be the exact transpose for every coherent shape and both orders: "
+            "terminates, never leaves the buffer, moves elements (Permutation), is an involution; switch_order/set_order preserve logical contents, the _without_rearrangement variants the memory sequence. "
+            "Model validated against the crate on every shape up to 8x8 (thorough 20x20) and random compositions of the five operations.",
+            TB, "DESIGN §7 C05"),
+    'C08': ("Rocq theorems on the size/capacity decision kernel + differential correspondence on boundary grids",
+            "Exact decision laws (SizeOverflow, then CapacityOverflow on the output byte size, else the requested shape; reshape: any differing or overflowing size is SizeMismatch) proved for all usize pairs, "
+            "all element sizes, any pointer width and both build profiles; the real entry points (constructors, resize, reshape, TryFrom, eight mapping operations, both products incl. mixed element sizes) "
+            "are run on all pairs of boundary values against the model and against exact arithmetic, with an allocation counter for failing calls.",
+            TB + " 'Succeeds whenever the allocation is possible' is shown as 'passes both checks and reaches the allocation with exactly r*c elements'; huge successes are only exercised where O(1).", "DESIGN §7 C08"),
+    'C09': ("Rocq theorems on reshape/resize and on the history machine + differential correspondence",
+            "reshape succeeds exactly when the size is unchanged and then only the shape changes; resize keeps the first min(old,new) elements of the memory-order sequence and appends defaults; "
+            "every fallible in-place operation of the history machine that reports an error leaves the whole pool unchanged (proved for any pool, hence at any point of any history).",
+            TB, "DESIGN §7 C09"),
+})
 NOT_APPLICABLE = {}
-for _p in ['C01', 'C02', 'C03', 'C05', 'C06', 'C07', 'C08', 'C09', 'C10', 'C11', 'C12', 'C14', 'C15', 'C16', 'C17', 'C18', 'C19', 'C20']:
+for _p in ['C01', 'C02', 'C03', 'C06', 'C07', 'C10', 'C11', 'C12', 'C14', 'C15', 'C16', 'C17', 'C18', 'C19', 'C20']:
     NOT_APPLICABLE[_p] = "not claimed yet: the check for this property is still being built in this round (the technique applies; see DESIGN.md §7)"
